@@ -7,6 +7,7 @@ This is similar to the opcode portion in Python 2.2's dis.py library.
 
 import xdis.opcodes.opcode_2x as opcode_2x
 from xdis.opcodes.base import (
+    jrel_op,
     def_op,
     finalize_opcodes,
     init_opdata,
@@ -22,7 +23,7 @@ loc = locals()
 init_opdata(loc, opcode_2x, version_tuple)
 
 # 2.2 Bytecodes not in 2.3
-def_op(loc, "FOR_LOOP", 114)
+jrel_op(loc, "FOR_LOOP", 114, conditional=True)
 def_op(loc, "SET_LINENO", 127, 0, 0)
 
 opcode_arg_fmt = update_arg_fmt_base2x.copy()
